@@ -199,7 +199,10 @@ def validate(ctx, spec, src, run, acc, datasets, extra=None):
             ctx.count('outputs_compared')
             refv = r_outs[k].astype(np.float64)
             got = q_outs[k].astype(np.float64)
-            A = max(1.0, float(np.max(np.abs(refv)))) if refv.size else 1.0
+            # relative to the largest magnitude any float tensor of the run reaches: a result obtained by cancellation carries
+            # the rounding of its (larger) terms
+            mags = [float(np.max(np.abs(v_))) for v_ in vals.values() if v_.dtype == np.float32 and v_.size and np.all(np.isfinite(v_))]
+            A = max([1.0, float(np.max(np.abs(refv))) if refv.size else 1.0] + mags)
             err = float(np.max(np.abs(refv - got))) / A if refv.size else 0.0
             ctx.observe_max('whole_model_rel_err', err)
             kmax = max([reduction_length(ms, a, o_) for o_ in a.operators] or [1])
@@ -262,9 +265,23 @@ def validate(ctx, spec, src, run, acc, datasets, extra=None):
                               dict(base, op_index=k, err_over_bound=ratio, rel_err=float(diff.max()) / A))
             else:
               ctx.count('ops_replayed:' + mode)
+              # float32 rounding of a dot product is relative to its TERMS (|x| * |w| summed), not to a result that may cancel
+              cmax = 0.0
+              for t0_ in oa.inputs:
+                if int(t0_) >= 0:
+                  c_ = const_override.get(int(t0_))
+                  if c_ is None:
+                    d_ = ms.buffers[a.tensors[int(t0_)].buffer].data
+                    if d_ is not None and len(d_) > 0 and a.tensors[int(t0_)].type == TT.FLOAT32:
+                      c_ = np.frombuffer(bytes(d_), dtype=np.float32)
+                  if c_ is not None and np.size(c_):
+                    cmax = max(cmax, float(np.max(np.abs(c_))))
+              xmax = float(np.max(np.abs(xin))) if xin is not None and xin.size else 1.0
+              kk = reduction_length(ms, a, oa)
+              A = max(A, kk * xmax * cmax if cmax else 0.0)
               err = float(diff.max()) / A
               ctx.observe_max('float_op_rel_err', err)
-              if not (err <= float_tol(reduction_length(ms, a, oa))):
+              if not (err <= float_tol(kk)):
                 ctx.violation('float_compute_operator_differs_from_replay', f, dict(base, op_index=k, rel_err=err))
   ctx.risky('interp.c06', go, common.risky_info(run, spec, datasets, {'rules': acc}))
   return {}
